@@ -12,7 +12,10 @@
                                                      fresh real trie holding them
      OLABEL = (R #label)                             harness: ledgercore.MakeLabel over the oracle root
      LEDGER = ((interval acctLookback tracking memcfg) (OP ...))
-     OP     = (b) | (c rnd OBS) | (r OBS)
+     OP     = (b) | (c rnd OBS) | (r OBS) | (k rnd OBS)
+              k: committedUpTo(rnd) interrupted by a power loss between the tracker commit transaction and the
+              catchpoint tracker's postCommitUnlocked, then restart of the copy of the DB taken at that moment
+              (recoverFromCrash finishes first stage / catchpoints / pruning: the model is commit then reload)
      OBS    = (dbRound #root FIRST ((R #label) ...))  FIRST = () | (rnd #root #totals #spver #onl #onlrp)
 
    [spec_ok] never looks at the model: every observed root / first-stage record / label of every
@@ -181,6 +184,7 @@ Section Spec.
     | TL [TS "b"] => true
     | TL [TS "c"; _; obs] => obs_ok obs
     | TL [TS "r"; obs] => obs_ok obs
+    | TL [TS "k"; _; obs] => obs_ok obs
     | _ => false
     end.
 
@@ -269,6 +273,15 @@ Section ModelObs.
             run_ops ops' st' (ok && term_eqb m (impl_obs_term obs)) (m :: acc)
         | None => (false, rev acc)
         end
+    | TL [TS "k"; r; obs] :: ops' =>
+        match as_N r with
+        | Some r =>
+            let st' := cstep ckey_dec cval_eqb cclass gleaf Hm P blocks
+                             (cstep ckey_dec cval_eqb cclass gleaf Hm P blocks st (OCommitTo r)) OReloadTrackers in
+            let m := obs_term st' (List.length (c_labels st)) in
+            run_ops ops' st' (ok && term_eqb m (impl_obs_term obs)) (m :: acc)
+        | None => (false, rev acc)
+        end
     | TL [TS "r"; obs] :: ops' =>
         let st' := cstep ckey_dec cval_eqb cclass gleaf Hm P blocks st OReloadTrackers in
         let m := obs_term st' (List.length (c_labels st)) in
@@ -304,6 +317,7 @@ Definition count_labels (ledgers : list term) : nat :=
                                       flat_map (fun o => match o with
                                                          | TL [TS "c"; _; TL [_; _; _; TL ls]] => ls
                                                          | TL [TS "r"; TL [_; _; _; TL ls]] => ls
+                                                         | TL [TS "k"; _; TL [_; _; _; TL ls]] => ls
                                                          | _ => []
                                                          end) ops
                                   | _ => []
